@@ -398,4 +398,257 @@ Proof.
     apply G, Hj.
 Qed.
 
+(* ---------------------------------------------------------------------------------------- *)
+(** * the linear system behind compute_interpolant, uniqueness, linearity, constants *)
+
+Lemma ip_interp1d_system knots degree periodic cubic xs u c :
+  ip_interp1d F K knots degree periodic cubic xs u = SpOk c ->
+  let nb := ip_nbasis F K knots degree periodic cubic in
+  exists A, ip_colloc F K nb knots degree periodic cubic xs = SpOk A /\
+  (forall i, (i < nb)%nat -> isum nb (fun k => mget A i k * nth k c 0) = nth i u 0).
+Proof.
+  unfold ip_interp1d. destruct (ip_interp_many F K knots degree periodic cubic xs [u]) as [cs| | | |] eqn:E; cbn [sp_bind]; try discriminate.
+  intros H. inversion H. subst c. cbv zeta.
+  destruct (ip_interp_many_system _ _ _ _ _ _ _ E) as [_ [A [EA Hsys]]]. exists A. split; [exact EA|].
+  destruct (Hsys 0%nat ltac:(cbn; lia)) as [sol [Hl [Ec Hsol]]]. intros i Hi. cbn [nth] in Hsol. rewrite <- (Hsol i Hi).
+  unfold ip_sum. apply ip_sumn_ext. intros k Hk. rewrite Ec. unfold ip_coeffs. destruct periodic; [|reflexivity].
+  rewrite app_nth1 by lia. reflexivity.
+Qed.
+
+(** the interpolation operator is linear (on the nbasis independent coefficients; the wrapped ones
+    follow by [ip_interp1d_wrap]) whenever the collocation matrix has a checked inverse *)
+Theorem ip_interp1d_linear knots degree periodic cubic xs A Ainv u v w cu cv cw a b :
+  let nb := ip_nbasis F K knots degree periodic cubic in
+  ip_colloc F K nb knots degree periodic cubic xs = SpOk A -> ip_inverse_ok F K nb A Ainv = true ->
+  ip_interp1d F K knots degree periodic cubic xs u = SpOk cu ->
+  ip_interp1d F K knots degree periodic cubic xs v = SpOk cv ->
+  ip_interp1d F K knots degree periodic cubic xs w = SpOk cw ->
+  (forall i, (i < nb)%nat -> nth i w 0 = a * nth i u 0 + b * nth i v 0) ->
+  forall k, (k < nb)%nat -> nth k cw 0 = a * nth k cu 0 + b * nth k cv 0.
+Proof.
+  cbv zeta. intros EA Hinv Hu Hv Hw Hlin.
+  destruct (ip_interp1d_system _ _ _ _ _ _ _ Hu) as [A1 [E1 Su]]. rewrite EA in E1. inversion E1. subst A1.
+  destruct (ip_interp1d_system _ _ _ _ _ _ _ Hv) as [A2 [E2 Sv]]. rewrite EA in E2. inversion E2. subst A2.
+  destruct (ip_interp1d_system _ _ _ _ _ _ _ Hw) as [A3 [E3 Sw]]. rewrite EA in E3. inversion E3. subst A3.
+  destruct (ip_inverse_ok_spec _ _ _ Hinv) as [HL _].
+  apply (ip_unique_left _ A Ainv (fun k => nth k cw 0) (fun k => a * nth k cu 0 + b * nth k cv 0) HL).
+  intros i Hi. rewrite (Sw i Hi), (Hlin i Hi), <- (Su i Hi), <- (Sv i Hi). unfold ip_sum.
+  rewrite <- !ip_sumn_scale, <- ip_sumn_add. apply ip_sumn_ext. intros; ring.
+Qed.
+
+(** every row of the collocation matrix sums to one (partition of unity) *)
+Definition ip_rows_sum_one (nb : nat) (A : list (list F)) : Prop :=
+  forall i, (i < nb)%nat -> isum nb (fun k => mget A i k) = 1.
+
+(** constant data give constant coefficients *)
+Theorem ip_interp1d_const knots degree periodic cubic xs A Ainv u c kappa :
+  let nb := ip_nbasis F K knots degree periodic cubic in
+  ip_colloc F K nb knots degree periodic cubic xs = SpOk A -> ip_inverse_ok F K nb A Ainv = true ->
+  ip_rows_sum_one nb A ->
+  ip_interp1d F K knots degree periodic cubic xs u = SpOk c ->
+  (forall i, (i < nb)%nat -> nth i u 0 = kappa) ->
+  forall k, (k < ip_ncoeffs F K knots degree cubic)%nat -> nth k c 0 = kappa.
+Proof.
+  cbv zeta. intros EA Hinv Hrows Hu Hconst.
+  destruct (ip_interp1d_system _ _ _ _ _ _ _ Hu) as [A1 [E1 Su]]. rewrite EA in E1. inversion E1. subst A1.
+  destruct (ip_inverse_ok_spec _ _ _ Hinv) as [HL _].
+  assert (Hsol : forall k, (k < ip_nbasis F K knots degree periodic cubic)%nat -> nth k c 0 = kappa).
+  { apply (ip_unique_left _ A Ainv (fun k => nth k c 0) (fun _ => kappa) HL).
+    intros i Hi. rewrite (Su i Hi), (Hconst i Hi). unfold ip_sum.
+    pose proof (Hrows i Hi) as R. unfold ip_sum in R.
+    transitivity (kappa * sumn (ip_nbasis F K knots degree periodic cubic) (fun k => mget A i k)); [rewrite R; ring|].
+    rewrite <- ip_sumn_scale. apply ip_sumn_ext. intros; ring. }
+  destruct (ip_interp1d_wrap _ _ _ _ _ _ _ Hu) as [Hlen Hwrap].
+  intros k Hk. destruct periodic.
+  - unfold ip_ncoeffs in Hk. unfold ip_nbasis in Hsol, Hwrap.
+    destruct (Nat.lt_ge_cases k (ip_ncells F K knots degree cubic)) as [Hlt|Hge]; [apply Hsol, Hlt|].
+    replace k with (ip_ncells F K knots degree cubic + (k - ip_ncells F K knots degree cubic))%nat by lia.
+    rewrite (Hwrap eq_refl) by lia. apply Hsol.
+    unfold ip_interp1d in Hu.
+    destruct (ip_interp_many F K knots degree true cubic xs [u]) as [cs| | | |] eqn:E; cbn [sp_bind] in Hu; try discriminate.
+    destruct (ip_interp_many_spec _ _ _ _ _ _ _ E) as [Hok _].
+    destruct (ip_space_ok_facts _ _ _ _ Hok) as [_ [_ [_ Hper]]]. specialize (Hper eq_refl). lia.
+  - apply Hsol. exact Hk.
+Qed.
+
+(** sum over a row = sum of the basis values written into it *)
+Lemma ip_row_sum nb degree s periodic b :
+  (1 <= nb)%nat -> (degree <= s)%nat -> (periodic = false -> (s < nb)%nat) ->
+  (periodic = true -> (degree + 1 <= nb)%nat) ->
+  isum nb (fun k => nth k (ip_row_of F K nb degree s periodic b) 0) = sumn (S degree) (fun j => nth j b 0).
+Proof.
+  intros Hnb Hd Hs Hp.
+  pose proof (ip_row_dot nb degree s periodic b (fun _ => 1) Hnb Hd Hs Hp) as H.
+  unfold ip_sum in *. rewrite (ip_sumn_ext nb _ (fun k => nth k (ip_row_of F K nb degree s periodic b) 0 * 1)) by (intros; ring).
+  rewrite H. apply ip_sumn_ext. intros; ring.
+Qed.
+
+Lemma ip_sumr_shift n : forall a f, sumr (S a) n f = sumr a n (fun i => f (S i)).
+Proof. induction n as [|n IH]; intros a f; [reflexivity|]. cbn [Sums.sumr]. rewrite IH. reflexivity. Qed.
+Lemma ip_sumF_sumn (l : list F) : sumF F 0 (spadd K) l = sumn (length l) (fun j => nth j l 0).
+Proof.
+  rewrite <- ip_sumr_sumn. induction l as [|a l IH]; [reflexivity|]. cbn [sumF length Sums.sumr nth]. rewrite IH.
+  rewrite ip_sumr_shift. reflexivity.
+Qed.
+
+(** uniform-cubic spaces: rows sum to one whatever the points are *)
+Theorem ip_rows_sum_one_cubic knots degree periodic xs A :
+  let nb := ip_nbasis F K knots degree periodic true in
+  ip_colloc F K nb knots degree periodic true xs = SpOk A -> length xs = nb -> degree = 3%nat ->
+  (periodic = true -> (degree + 1 <= nb)%nat) -> ip_rows_sum_one nb A.
+Proof.
+  cbv zeta. intros EA Hxs Hd3 Hp i Hi.
+  destruct (ip_mapM_spec _ 0 [] _ _ EA) as [HlA HA]. specialize (HA i ltac:(lia)).
+  destruct (ip_colloc_row_spec _ _ _ _ _ _ _ HA) as [s [b [Hsb [Hds [Hsn [Hnb Erow]]]]]].
+  unfold ip_mget. rewrite Erow. rewrite ip_row_sum by assumption.
+  unfold ip_span_basis in Hsb.
+  destruct (sp_cu_unpack F K knots) as [[[[xmin xmax] dx] nc]| | | |]; cbn [sp_bind] in Hsb; try discriminate.
+  destruct (sp_cu_find_span F K xmin xmax dx (nth i xs 0) nc) as [so| | | |]; cbn [sp_bind] in Hsb; try discriminate.
+  destruct (sp_span_nat (fst so)) as [s'| | | |]; cbn [sp_bind] in Hsb; try discriminate.
+  inversion Hsb. subst s' b. rewrite Hd3.
+  rewrite <- (sp_cu_basis_sum_one F K HK (snd so)).
+  unfold sp_cu_basis_funs, cu_basis. cbn [Sums.sumn nth sumF]. ring.
+Qed.
+
+(** general spaces: rows sum to one for points of the closed domain of a sorted knot list whose first
+    and last cells are not empty (hypotheses of C07's [sp_nu_find_span_domain]) *)
+Theorem ip_rows_sum_one_nu knots degree periodic xs A :
+  let nb := ip_nbasis F K knots degree periodic false in
+  ip_colloc F K nb knots degree periodic false xs = SpOk A -> length xs = nb ->
+  sp_sorted F K knots -> (2 * degree + 1 < length knots)%nat ->
+  sp_lt K (sp_kn F K knots degree) (sp_kn F K knots (S degree)) ->
+  sp_lt K (sp_kn F K knots (length knots - degree - 2)) (sp_kn F K knots (length knots - 1 - degree)) ->
+  (forall i, (i < nb)%nat -> sp_le K (sp_kn F K knots degree) (nth i xs 0) /\
+                             sp_le K (nth i xs 0) (sp_kn F K knots (length knots - 1 - degree))) ->
+  (periodic = true -> (degree + 1 <= nb)%nat) -> ip_rows_sum_one nb A.
+Proof.
+  cbv zeta. intros EA Hxs Hsorted Hlen Hfirst Hlast Hdom Hp i Hi.
+  destruct (ip_mapM_spec _ 0 [] _ _ EA) as [HlA HA]. specialize (HA i ltac:(lia)).
+  destruct (ip_colloc_row_spec _ _ _ _ _ _ _ HA) as [s [b [Hsb [Hds [Hsn [Hnb Erow]]]]]].
+  unfold ip_mget. rewrite Erow. rewrite ip_row_sum by assumption.
+  unfold ip_span_basis in Hsb.
+  destruct (Hdom i Hi) as [Hlo Hhi].
+  destruct (sp_nu_find_span_domain F K HK knots degree (nth i xs 0) Hsorted Hlen Hfirst Hlast Hlo Hhi)
+    as [s' [E [Hr [Hspan _]]]].
+  rewrite E in Hsb. cbn [sp_bind] in Hsb.
+  rewrite (sp_nu_basis_funs_ok F K HK knots degree (nth i xs 0) s' Hsorted Hspan) in Hsb by lia.
+  cbn [sp_bind] in Hsb. inversion Hsb. subst s b.
+  rewrite <- (sp_A22_sum_one F K HK knots degree (nth i xs 0) s' Hsorted Hspan) by lia.
+  rewrite ip_sumF_sumn, sp_A22_length. reflexivity.
+Qed.
+
+(* ---------------------------------------------------------------------------------------- *)
+(** * get_quadrature_coefficients *)
+
+Lemma ip_quad_from_spec knots degree periodic cubic xs I w :
+  ip_quad_from F K knots degree periodic cubic xs I = SpOk w ->
+  let nb := ip_nbasis F K knots degree periodic cubic in
+  length w = nb /\
+  exists A, ip_colloc F K nb knots degree periodic cubic xs = SpOk A /\
+  forall j, (j < nb)%nat -> isum nb (fun i => mget A i j * nth i w 0) = nth j (ip_quad_rhs F K nb degree periodic I) 0.
+Proof.
+  unfold ip_quad_from. cbv zeta. set (nb := ip_nbasis F K knots degree periodic cubic).
+  destruct (ip_space_ok F K knots degree periodic cubic && (length xs =? nb)%nat
+            && (length I =? ip_ncoeffs F K knots degree cubic)%nat); [|discriminate].
+  destruct (ip_colloc F K nb knots degree periodic cubic xs) as [A| | | |] eqn:EA; cbn [sp_bind]; try discriminate.
+  destruct (ip_lin_solve F K nb 1 _ _) as [X| | | |] eqn:EX; cbn [sp_bind]; try discriminate.
+  intros H. inversion H. split; [apply ip_vtab_length|]. exists A. split; [reflexivity|].
+  intros j Hj. destruct (ip_lin_solve_spec _ _ _ _ _ EX) as [_ [_ HX]].
+  specialize (HX j 0%nat Hj ltac:(lia)). rewrite ip_tab_get in HX by lia. rewrite <- HX.
+  unfold ip_sum. apply ip_sumn_ext. intros i Hi. rewrite ip_vtab_get by exact Hi.
+  unfold ip_transpose. rewrite ip_tab_get by assumption. reflexivity.
+Qed.
+
+(** headline of C09: the weights of the transposed solve integrate the interpolant, for ANY data:
+    sum_i w_i u_i = sum_j q_j c_j,  q = the right-hand side built from the basis integrals *)
+Theorem ip_quadrature_dual knots degree periodic cubic xs I w u c :
+  ip_quad_from F K knots degree periodic cubic xs I = SpOk w ->
+  ip_interp1d F K knots degree periodic cubic xs u = SpOk c ->
+  let nb := ip_nbasis F K knots degree periodic cubic in
+  isum nb (fun i => nth i w 0 * nth i u 0)
+  = isum nb (fun j => nth j (ip_quad_rhs F K nb degree periodic I) 0 * nth j c 0).
+Proof.
+  intros Hw Hc. cbv zeta.
+  destruct (ip_quad_from_spec _ _ _ _ _ _ _ Hw) as [_ [A [EA HT]]].
+  destruct (ip_interp1d_system _ _ _ _ _ _ _ Hc) as [A' [EA' HC]]. rewrite EA in EA'. inversion EA'. subst A'.
+  unfold ip_sum in *.
+  exact (weights_dual F 0 1 (spadd K) (spmul K) (spsub K) (spdiv K) (spopp K) (spinv K) Fth _
+           (fun i j => mget A i j) (fun i => nth i w 0) (fun i => nth i u 0) (fun j => nth j c 0)
+           (fun j => nth j (ip_quad_rhs F K _ degree periodic I) 0) HT HC).
+Qed.
+
+(** the weights sum to the sum of the (folded) basis integrals when the rows of C sum to one *)
+Theorem ip_weights_sum knots degree periodic cubic xs I w A :
+  let nb := ip_nbasis F K knots degree periodic cubic in
+  ip_quad_from F K knots degree periodic cubic xs I = SpOk w ->
+  ip_colloc F K nb knots degree periodic cubic xs = SpOk A -> ip_rows_sum_one nb A ->
+  isum nb (fun i => nth i w 0) = isum nb (fun j => nth j (ip_quad_rhs F K nb degree periodic I) 0).
+Proof.
+  cbv zeta. intros Hw EA Hrows.
+  destruct (ip_quad_from_spec _ _ _ _ _ _ _ Hw) as [_ [A' [EA' HT]]]. rewrite EA in EA'. inversion EA'. subst A'.
+  unfold ip_sum in *.
+  pose proof (weights_dual F 0 1 (spadd K) (spmul K) (spsub K) (spdiv K) (spopp K) (spinv K) Fth _
+           (fun i j => mget A i j) (fun i => nth i w 0) (fun _ => 1) (fun _ => 1)
+           (fun j => nth j (ip_quad_rhs F K _ degree periodic I) 0) HT) as H.
+  rewrite (ip_sumn_ext _ (fun i => nth i w 0) (fun i => nth i w 0 * 1)) by (intros; ring).
+  rewrite H.
+  - apply ip_sumn_ext. intros; ring.
+  - intros i Hi. cbv beta. transitivity (isum (ip_nbasis F K knots degree periodic cubic) (fun k => mget A i k)); [|apply Hrows, Hi].
+    unfold ip_sum. apply ip_sumn_ext. intros; ring.
+Qed.
+
+(** the folded right-hand side against the solution = all ncells+p integrals against the wrapped coefficients *)
+Lemma ip_sumn_split n p f : sumn (n + p) f = sumn n f + sumn p (fun j => f (n + j)%nat).
+Proof. induction p as [|p IH]; [rewrite Nat.add_0_r; cbn; ring|]. rewrite Nat.add_succ_r. cbn [Sums.sumn]. rewrite IH. ring. Qed.
+Lemma ip_sumn_prefix n p g : (p <= n)%nat -> sumn n (fun j => if (j <? p)%nat then g j else 0) = sumn p g.
+Proof.
+  intros Hp. replace n with (p + (n - p))%nat by lia. rewrite ip_sumn_split.
+  rewrite (ip_sumn_ext p _ g).
+  - rewrite (ip_sumn_ext (n - p) _ (fun _ => 0)); [rewrite ip_sumn_zero; ring|].
+    intros j _. destruct (Nat.ltb_spec (p + j) p); [lia|reflexivity].
+  - intros j Hj. destruct (Nat.ltb_spec j p); [reflexivity|lia].
+Qed.
+
+Theorem ip_quad_rhs_unfold n degree (I c : list F) : (degree <= n)%nat ->
+  (forall j, (j < degree)%nat -> nth (n + j) c 0 = nth j c 0) ->
+  isum n (fun j => nth j (ip_quad_rhs F K n degree true I) 0 * nth j c 0)
+  = isum (n + degree) (fun j => nth j I 0 * nth j c 0).
+Proof.
+  intros Hd Hwrap. unfold ip_sum. rewrite ip_sumn_split.
+  rewrite (ip_sumn_ext n _ (fun j => nth j I 0 * nth j c 0 + (if (j <? degree)%nat then nth (n + j) I 0 * nth j c 0 else 0))).
+  2:{ intros j Hj. unfold ip_quad_rhs. rewrite ip_vtab_get by exact Hj. destruct (j <? degree)%nat; ring. }
+  rewrite ip_sumn_add. f_equal. rewrite ip_sumn_prefix by exact Hd.
+  apply ip_sumn_ext. intros j Hj. rewrite (Hwrap j Hj). reflexivity.
+Qed.
+
+(** certificate form of "all weights are equal on a uniform periodic space": if every COLUMN of the
+    collocation matrix sums to one as well (checked per instance), the folded integrals are all equal to
+    dx and the matrix has a checked inverse, then every weight is dx *)
+Theorem ip_weights_equal_cert knots degree periodic cubic xs I w A Ainv dx :
+  let nb := ip_nbasis F K knots degree periodic cubic in
+  ip_quad_from F K knots degree periodic cubic xs I = SpOk w ->
+  ip_colloc F K nb knots degree periodic cubic xs = SpOk A -> ip_inverse_ok F K nb A Ainv = true ->
+  (forall j, (j < nb)%nat -> isum nb (fun i => mget A i j) = 1) ->
+  (forall j, (j < nb)%nat -> nth j (ip_quad_rhs F K nb degree periodic I) 0 = dx) ->
+  forall i, (i < nb)%nat -> nth i w 0 = dx.
+Proof.
+  cbv zeta. intros Hw EA Hinv Hcols Hq.
+  destruct (ip_quad_from_spec _ _ _ _ _ _ _ Hw) as [_ [A' [EA' HT]]]. rewrite EA in EA'. inversion EA'. subst A'.
+  destruct (ip_inverse_ok_spec _ _ _ Hinv) as [_ HR].
+  set (nb := ip_nbasis F K knots degree periodic cubic) in *.
+  (* uniqueness for the transposed system, from the right inverse of A *)
+  apply (ip_unique_left nb (ip_transpose F K nb nb A) (ip_transpose F K nb nb Ainv) (fun i => nth i w 0) (fun _ => dx)).
+  - intros i j Hi Hj.
+    replace (ip_delta F K i j) with (ip_delta F K j i) by (unfold ip_delta; rewrite Nat.eqb_sym; reflexivity).
+    rewrite <- (HR j i Hj Hi). unfold ip_sum. apply ip_sumn_ext. intros k Hk.
+    unfold ip_transpose. rewrite !ip_tab_get by assumption. ring.
+  - intros j Hj. unfold ip_sum.
+    rewrite (ip_sumn_ext nb _ (fun i => mget A i j * nth i w 0)).
+    2:{ intros i Hi. unfold ip_transpose. rewrite ip_tab_get by assumption. reflexivity. }
+    fold (ip_sum F K nb (fun i => mget A i j * nth i w 0)). rewrite (HT j Hj), (Hq j Hj).
+    rewrite (ip_sumn_ext nb _ (fun i => dx * mget A i j)).
+    2:{ intros i Hi. unfold ip_transpose. rewrite ip_tab_get by assumption. ring. }
+    rewrite ip_sumn_scale. fold (ip_sum F K nb (fun i => mget A i j)). rewrite (Hcols j Hj). ring.
+Qed.
+
 End IpTheory.
